@@ -50,7 +50,17 @@ fn worker_verbs(rng: &mut Prng, clusters: &[String]) -> Request {
         4 => RequestType::QueryMetrics(QueryMetricsOptions { list: rng.below(2) == 0, cluster_ids: vec![], backend_ids: vec![], metric_names: vec![], no_clusters: rng.below(2) == 0, workers: false }).into(),
         5 => RequestType::ConfigureMetrics(*rng.pick(&[MetricsConfiguration::Enabled as i32, MetricsConfiguration::Disabled as i32, MetricsConfiguration::Clear as i32])).into(),
         6 => RequestType::SetMaxConnectionsPerIp(*rng.pick(&[0u64, 1, 100])).into(),
-        _ => RequestType::QueryCertificatesFromWorkers(Default::default()).into(),
+        // all certificates / by domain (answered by the https proxy) / by a fingerprint that is or is not loaded
+        _ => {
+            let mut f = sozu_command_lib::proto::command::QueryCertificatesFilters::default();
+            match rng.below(4) {
+                0 => {}
+                1 => f.domain = Some(format!("{}.test", rng.pick(&["a", "b", "www.a", "nohost"]))),
+                2 => f.fingerprint = Some("ab".repeat(32)),
+                _ => f.fingerprint = Some(rng.pick(&["", "00", "zz", "0123456789abcdef0123456789abcdef0123456789abcdef0123456789abcdef"]).to_string()),
+            }
+            RequestType::QueryCertificatesFromWorkers(f).into()
+        }
     }
 }
 
